@@ -9,6 +9,7 @@ import (
 	"go/parser"
 	"go/printer"
 	"go/token"
+	"os"
 	"path/filepath"
 	"sort"
 	"strings"
@@ -43,6 +44,9 @@ var (
 func typesOnlyUniverse() *fx.Universe {
 	typesUniOnce.Do(func() {
 		typesUni, typesUniErr = fx.NewTypesOnlyUniverse(filepath.Join(ev.ScratchDir(), "fxtypes"), ev.RepoDir())
+		if typesUniErr == nil {
+			typesUniErr = typesUni.UsePrivateCache(filepath.Join(ev.ScratchDir(), "gocache-fxtypes"), os.Getenv("VERIF_GOCACHE_BASE"))
+		}
 	})
 	if typesUniErr != nil {
 		panic("INFRA: types-only universe: " + typesUniErr.Error())
